@@ -51,7 +51,7 @@ func widen(b []byte) []int32 {
 }
 
 func checkC17(c *Ctx) {
-	c.rule = "byte strings = characters of width 2/3/4 straddling every 4096-byte block boundary at every split offset, boundary sizes, BOM variants, legitimate U+FFFD, every single-byte corruption (overwrite 0x80/0xC0/0xF8/0xFF, delete, truncate) of small valid programs, overlong/surrogate encodings, GBK text; each through FileStream.ReadAll, ByteStream.ReadAll, chunked Read(n) for n in 1..17 and random n, and end-to-end LoadFile+Execute of marker programs, among them valid files with 22 unusual characters (U+0000, controls, U+2028, U+FEFF, noncharacters, …) in a literal / a comment / between statements / at a line start / at the end: rejected as a whole or run completely. Oracle: unicode/utf8 (Valid + []rune). distinct_nontrivial = distinct (case family, validity, reader mode) x byte-level shape hashes with at least one multi-byte character or corruption"
+	c.rule = "byte strings = characters of width 2/3/4 straddling every 4096-byte block boundary at every split offset, boundary sizes, BOM variants, legitimate U+FFFD, every single-byte corruption (overwrite 0x80/0xC0/0xF8/0xFF, delete, truncate) of small valid programs, overlong/surrogate encodings, GBK text; each through FileStream.ReadAll, ByteStream.ReadAll, chunked Read(n) for n in 1..17 and random n, FileStream.ReadAll over a named pipe whose writer pauses at chosen offsets (after the BOM, inside characters), and end-to-end LoadFile+Execute of marker programs, among them valid files with 22 unusual characters (U+0000, controls, U+2028, U+FEFF, noncharacters, …) in a literal / a comment / between statements / at a line start / at the end: rejected as a whole or run completely. Oracle: unicode/utf8 (Valid + []rune). distinct_nontrivial = distinct (case family, validity, reader mode) x byte-level shape hashes with at least one multi-byte character or corruption"
 	c.assumptions = []string{"Go's unicode/utf8 is the reference decoder", "a leading BOM is judged only for FileStream (source files); ByteStream may keep or drop it"}
 	rng := c.Rand("c17")
 	cases := []c17Case{}
@@ -151,10 +151,11 @@ func checkC17(c *Ctx) {
 		ci   int
 		mode string
 		n    int
+		cuts []int
 	}
 	jobs := []job{}
 	for ci := range cases {
-		jobs = append(jobs, job{ci, "file", 0}, job{ci, "byte", 0})
+		jobs = append(jobs, job{ci, "file", 0, nil}, job{ci, "byte", 0, nil})
 		ns := []int{1, 2, 3, 4, 5, 7, 16, 17}
 		if !c.Quick() {
 			ns = []int{1, 2, 3, 4, 5, 6, 7, 8, 9, 10, 11, 12, 13, 14, 15, 16, 17, 4095, 4096, 4097}
@@ -163,28 +164,53 @@ func checkC17(c *Ctx) {
 			ns = []int{3, 5, 17, 4095, 4096, 4097, 1 + rng.Intn(9000)}
 		}
 		for _, n := range ns {
-			jobs = append(jobs, job{ci, "fileN", n})
+			jobs = append(jobs, job{ci, "fileN", n, nil})
 			if n%2 == 1 {
-				jobs = append(jobs, job{ci, "byteN", n})
+				jobs = append(jobs, job{ci, "byteN", n, nil})
 			}
 		}
 	}
+	// the same files delivered through a named pipe in parts (short reads at chosen offsets:
+	// after the BOM, inside a character, one byte at a time at the start)
+	nf := 0
+	for ci := range cases {
+		d := cases[ci].data
+		if len(d) == 0 || len(d) > 400 || (c.Quick() && nf > 400) {
+			continue
+		}
+		cutSets := [][]int{{3}, {1}, {2}, {1, 2, 3}, {3, 4}, {1, 2, 3, 4, 5, 6}, {len(d) - 1}, {len(d) - 2}, {len(d) / 2}}
+		for k := 0; k < 3; k++ {
+			cs := []int{}
+			for p := 1 + rng.Intn(4); p < len(d); p += 1 + rng.Intn(9) {
+				cs = append(cs, p)
+				if len(cs) > 6 {
+					break
+				}
+			}
+			cutSets = append(cutSets, cs)
+		}
+		for _, cs := range cutSets {
+			jobs = append(jobs, job{ci, "fifo", 0, cs})
+			nf++
+		}
+	}
+	c.Count("fifo_deliveries", int64(nf))
 	reqs := make([]Req, len(jobs))
 	for i, j := range jobs {
-		reqs[i] = Req{Op: "readall", Data: widen(cases[j.ci].data), Mode: j.mode, N: j.n}
+		reqs[i] = Req{Op: "readall", Data: widen(cases[j.ci].data), Mode: j.mode, N: j.n, Cuts: j.cuts}
 	}
 	c.runBatches(reqs, 100, func(i int, req *Req, resp *Resp) {
 		c.Eval()
 		j := jobs[i]
 		cs := cases[j.ci]
-		isFile := strings.HasPrefix(j.mode, "file")
+		isFile := strings.HasPrefix(j.mode, "fi")
 		want, valid := expectedRunes(cs.data, isFile)
 		fam := strings.SplitN(cs.name, "/", 2)[0]
 		c.Distinct("families", fam+"/"+j.mode)
 		if !utf8.Valid(cs.data) || len(cs.data) != len([]rune(string(cs.data))) {
 			c.Nontrivial(fmt.Sprintf("%s|%s|%d|%v|%d", cs.name, j.mode, j.n, valid, len(cs.data)))
 		}
-		key := fmt.Sprintf("decode:%s:%s/%s/%d", fam, cs.name, j.mode, j.n)
+		key := fmt.Sprintf("decode:%s:%s/%s/%d%v", fam, cs.name, j.mode, j.n, j.cuts)
 		rp := map[string]interface{}{"req": req, "case": cs.name}
 		switch resp.Kind {
 		case "ok":
